@@ -206,36 +206,39 @@ def check_cli(ctx):
             dist, total = distribution(chains, burn)
             groups = support_groups(dist, support_of)
             tot = {k: sum(g.values()) for k, g in groups.items()}
-            sbest = max(tot.values())
-            arg = [k for k, v in tot.items() if close(v, sbest)]
-            if len(arg) > 1:
-                ctx.counters.inc("cli_tie_skip")
-                continue
-            grp = groups[arg[0]]
-            gbest = max(grp.values())
-            garg = [k for k, v in grp.items() if close(v, gbest)]
-            if len(garg) > 1:
-                ctx.counters.inc("cli_tie_skip")
-                continue
-            want_seqs = Counter()
-            for hap in garg[0]:
-                seq = list(rec["refseq"])
-                for off, alleles, a in zip(rec["snv_offsets"], rec["snv_alleles"], hap):
-                    seq[off] = alleles[a]
-                want_seqs["".join(seq)] += 1
             fld = vr["samples"][s]
             gt = fld["GT"].replace("|", "/").split("/")
-            got_seqs = Counter(seqs[int(a)] for a in gt if a != ".")
             where = "locus %s, sample %s, --mcmc-burn %d" % (vr["id"], s, burn)
-            if len(gt) != rec["ploidy"] or any(got_seqs[q] > want_seqs.get(q, 0) for q in got_seqs):
-                fail(ctx, "cli_report", "GT %s spells haplotypes %r; the most frequent genotype of the most frequent support of the retained trace is %r (%s)"
-                     % (fld["GT"], dict(got_seqs), dict(want_seqs), where), kind="cli")
-            for key, want in (("GPM", gbest), ("SPM", sbest)):
-                if abs(float(fld[key]) - want) > 0.00051:
-                    fail(ctx, "cli_report", "%s=%s printed; the retained trace gives %.6f (%s)" % (key, fld[key], want, where), kind="cli")
-            ctx.counters.inc("cli_reports_checked")
+            if len(gt) != rec["ploidy"]:
+                fail(ctx, "cli_report", "GT %s has %d alleles for ploidy %d (%s)" % (fld["GT"], len(gt), rec["ploidy"], where), kind="cli")
             if "." in gt:
+                # a haplotype below --haplotype-posterior-threshold is printed as a null allele: the genotype is not fully spelled
                 ctx.counters.inc("cli_null_alleles")
+                continue
+            # the printed genotype, read back through the record's own REF / ALT sequences into allele codes at the locus' SNVs
+            try:
+                key = []
+                for a in gt:
+                    seq = seqs[int(a)]
+                    if any(seq[i] != rec["refseq"][i] for i in range(len(seq)) if i not in rec["snv_offsets"]) or len(seq) != len(rec["refseq"]):
+                        raise ValueError(seq)
+                    key.append(tuple(al.index(seq[off]) for off, al in zip(rec["snv_offsets"], rec["snv_alleles"])))
+                key = tuple(sorted(key))
+            except (ValueError, IndexError):
+                fail(ctx, "cli_report", "GT %s spells a haplotype that is not a combination of the locus' SNV alleles on the reference (%s)" % (fld["GT"], where), kind="cli")
+                continue
+            want_gpm = dist.get(key, 0.0)
+            want_spm = tot.get(support_of(key), 0.0)
+            if abs(float(fld["GPM"]) - want_gpm) > 0.00051:
+                fail(ctx, "cli_report", "GT %s with GPM=%s printed; that genotype holds %.6f of the retained trace (%s)" % (fld["GT"], fld["GPM"], want_gpm, where), kind="cli")
+            if abs(float(fld["SPM"]) - want_spm) > 0.00051:
+                fail(ctx, "cli_report", "SPM=%s printed; genotypes with the printed genotype's set of haplotypes hold %.6f of the retained trace (%s)" % (fld["SPM"], want_spm, where), kind="cli")
+            # selection: either documented rule is accepted (most frequent genotype, or most frequent genotype of the most frequent support)
+            is_mode = close(want_gpm, max(dist.values()))
+            in_mode_support = close(want_spm, max(tot.values())) and close(want_gpm, max(groups[support_of(key)].values()))
+            if not (is_mode or in_mode_support):
+                fail(ctx, "cli_report", "GT %s is neither the most frequent genotype of the retained trace nor the most frequent genotype of its most frequent support (%s)" % (fld["GT"], where), kind="cli")
+            ctx.counters.inc("cli_reports_checked")
             if len(dist) > 1:
                 ctx.key("cli-report", rec["ploidy"], cfg["mcmc_chains"], burn, tuple(sorted(dist.values())))
 
